@@ -9,6 +9,21 @@ static COUNTS: [AtomicU64; MAX_WAKERS] = [const { AtomicU64::new(0) }; MAX_WAKER
 static CLONES: [AtomicU64; MAX_WAKERS] = [const { AtomicU64::new(0) }; MAX_WAKERS];
 static DROPS: [AtomicU64; MAX_WAKERS] = [const { AtomicU64::new(0) }; MAX_WAKERS];
 
+/// Optional observer called with the waker's id whenever a waker is invoked.
+static ON_WAKE: std::sync::atomic::AtomicUsize = std::sync::atomic::AtomicUsize::new(0);
+
+pub fn set_on_wake(f: Option<fn(usize)>) {
+    ON_WAKE.store(f.map_or(0, |f| f as usize), Ordering::SeqCst);
+}
+
+fn notify(id: usize) {
+    let f = ON_WAKE.load(Ordering::SeqCst);
+    if f != 0 {
+        let f: fn(usize) = unsafe { std::mem::transmute::<usize, fn(usize)>(f) };
+        f(id);
+    }
+}
+
 static VTABLE: RawWakerVTable = RawWakerVTable::new(clone, wake, wake_by_ref, drop_waker);
 
 unsafe fn clone(data: *const ()) -> RawWaker {
@@ -19,10 +34,12 @@ unsafe fn clone(data: *const ()) -> RawWaker {
 unsafe fn wake(data: *const ()) {
     COUNTS[data as usize].fetch_add(1, Ordering::SeqCst);
     DROPS[data as usize].fetch_add(1, Ordering::SeqCst);
+    notify(data as usize);
 }
 
 unsafe fn wake_by_ref(data: *const ()) {
     COUNTS[data as usize].fetch_add(1, Ordering::SeqCst);
+    notify(data as usize);
 }
 
 unsafe fn drop_waker(data: *const ()) {
